@@ -308,14 +308,16 @@ R_PNFTP12 = [f"{_RP}.translated_history_invariants", f"{_RP}.getPNFTsByDenomId_r
              f"{_RP}.getPNFTsByDenomIdAndOwner_refines", f"{_RP}.getPNFTsByDenomIdAndOwner_bad", f"{_RP}.getAllDenoms_run",
              f"{_RP}.denomsByOwner_refines", f"{_RP}.pnftQuery_refines"]
 _RPQ = "Panacea.Refine.PnftQuery"
+_RAQ = "Panacea.Refine.AolQuery"
+R_AOLQ = [f"{_RA}.topicQuery_refines", f"{_RA}.writerQuery_refines", f"{_RA}.recordQuery_refines", f"{_RA}.itemQueries_nil"]
 REFINE = {
     "C18": ([_RC], R_COMPKEY),
-    "C01": ([_RA], R_COMPKEY + R_AOL),
-    "C13": ([_RA], R_COMPKEY + R_AOL),
+    "C01": ([_RA, _RAQ], R_COMPKEY + R_AOL + R_AOLQ[2:3]),
+    "C13": ([_RA, _RAQ], R_COMPKEY + R_AOL + R_AOLQ),
     "C02": ([_RA, _RT], R_AOL + R_SIGNERS),
     "C15": ([_RT], R_SIGNERS),
     "C16": ([_RT, _RD, _RP], R_VB + R_DIDV + R_PNFTV),
-    "C17": ([_RT, _RC, _RD, _RP], R_VB + R_SIGNERS + R_COMPKEY + R_DIDV[-3:] + R_PNFTV),
+    "C17": ([_RT, _RC, _RD, _RP, _RAQ], R_VB + R_SIGNERS + R_COMPKEY + R_DIDV[-3:] + R_PNFTV + R_AOLQ),
     "C06": ([_RP, _RPP], R_PNFTV + R_PNFTH + R_PNFTP06),
     "C12": ([_RP, _RPP, _RPQ], R_PNFTH + R_PNFTP12),
     "C11": ([_RD, _RK], R_DIDV[-4:] + R_DIDK[3:5]),
